@@ -48,7 +48,7 @@
     unsigned long k = (unsigned long)(pos - v->d); T val = *x; for (unsigned long i = v->n; i > k; --i) v->d[i] = v->d[i - 1]; v->d[k] = val; v->n = v->n + 1; return pos; }
 #else
 #define VEC_DECL(T, V) VEC_COMMON(T, V) \
-  static inline void V##__ctor_0(V *v) { v->d = 0; v->n = 0; } \
+  static inline void V##__ctor_0(V *v) { v->d = (T*)verif_new(sizeof(T)); v->n = 0; } \
   void V##__push_back(V *v, const T *x) \
     __CPROVER_requires(v->n < VEC_CAP) \
     __CPROVER_ensures(v->n == __CPROVER_old(v->n) + 1 && __CPROVER_is_fresh(v->d, v->n * sizeof(T))) \
@@ -70,5 +70,5 @@
     __CPROVER_ensures(v->n == n && __CPROVER_is_fresh(v->d, (n == 0 ? 1 : n) * sizeof(T))) \
     __CPROVER_assigns(v->d, v->n);
 #endif
-#define VEC_FRESH(v) ((v)->n <= VEC_CAP && ((v)->n == 0 || __CPROVER_is_fresh((v)->d, (v)->n * sizeof(*(v)->d))))
+#define VEC_FRESH(v) ((v)->n <= VEC_CAP && __CPROVER_is_fresh((v)->d, ((v)->n == 0 ? 1 : (v)->n) * sizeof(*(v)->d)))
 #endif
